@@ -162,7 +162,7 @@ func insertSorted(keys, values []felt.Felt, k, v felt.Felt) ([]felt.Felt, []felt
 }
 
 func TestPropRangeProofs(t *testing.T) {
-	stats.Check(t, stats.Budget{Quick: 1200, Thorough: 16000},
+	stats.Check(t, stats.Budget{Quick: 2500, Thorough: 16000},
 		"key/value sets as TestPropTrieProofs (height 251, Pedersen) on core/trie and core/trie2; honest range proofs: whole trie without proof, [first, last returned] with first existing / absent / zero / beyond the last leaf, 0..n elements, single element; expected to verify with the right hasMore; then ONE corruption of (root, first, keys, values, proof) — truncate keys/values, change a value or key, drop first/middle/last element, swap, duplicate, insert foreign leaf, drop/replace/alter a proof node, coordinated value+proof-leaf forgery — with the semantic oracle 'accepted => the list is exactly the trie's leaves in the covered range and hasMore is right'; non-trivial = >= 3 leaves with a corruption that keeps the list well-formed (sorted, equal lengths) evaluated",
 		func(rt *rapid.T, c *stats.Case) {
 			const height = 251
